@@ -15,6 +15,7 @@ func init() { register("C08", checkC08) }
 
 func checkC08(c *Ctx) {
 	r := c.R
+	r.Rule("R15.4", "(shared with C15) no shared mutable state between handlers: derived log/slog handlers own a fresh field list and deriving one edits no attribute object")
 	r.Rule("R03.1", "(shared with C03) no admitted record is lost: the routing decision function equals the documented one (an emptied per-level list does not hide the class writers)")
 	r.Rule("R10.1", "(shared with C10) no shared mutable configuration between loggers: a child never shares its parent's writer set or per-level map")
 	r.Rule("R13.2", "(shared with C13) no record nobody logged: the sink reports a failed Write at most once, at the severity its own recursion guard tests, through a gated entry point of the same logger")
@@ -49,6 +50,8 @@ func checkC08(c *Ctx) {
 		c13Fanout(c, p, m)
 		lockDiscipline(c, p, "R08.7")
 		c13Reaction(c, p, m)
+		c15Derived(c, p, m)
+		lookupHitIsPure(c, p, "R10.4")
 		c03Routing(c, p, m)
 		c10Frames(c, p, m)
 		c10Creation(c, p, m)
